@@ -110,6 +110,9 @@ pub struct Rejected {
     pub trailing: String,
     /// limit armed around the submission of R (cleared afterwards): ("insn"|"stack", value)
     pub limit: Option<(String, usize)>,
+    /// this many blanks follow the text (sources of a megabyte and more without a megabyte in the
+    /// case file)
+    pub pad: usize,
 }
 
 impl Rejected {
@@ -124,6 +127,12 @@ impl Rejected {
         if !self.trailing.is_empty() {
             s.push(' ');
             s.push_str(&self.trailing);
+        }
+        if self.pad > 0 {
+            s.reserve(self.pad);
+            for i in 0..self.pad {
+                s.push(if i % 97 == 96 { '\n' } else { ' ' });
+            }
         }
         s
     }
@@ -568,7 +577,7 @@ fn enumerated(case: &Case) -> Vec<Rejected> {
     for pos in 0..=n {
         let (prefix, trailing) = base_cut(&case.base, pos);
         for (kind, fail) in FAIL_KINDS {
-            v.push(Rejected { prefix: prefix.clone(), kind: kind.to_string(), fail: fail.to_string(), trailing: trailing.clone(), limit: limit_for(kind) });
+            v.push(Rejected { prefix: prefix.clone(), kind: kind.to_string(), fail: fail.to_string(), trailing: trailing.clone(), limit: limit_for(kind), pad: 0 });
         }
     }
     fn gcd(a: usize, b: usize) -> usize {
@@ -727,7 +736,7 @@ fn generate0(rng: &mut Rng, tier: Tier) -> Case {
             5 | 6 => Some(("stack".to_string(), rng.below(6))),
             _ => Some(("heap".to_string(), rng.below(3))),
         };
-        Rejected { prefix: base.clone(), kind: "fails-at-run".to_string(), fail: String::new(), trailing: "900500 println".to_string(), limit }
+        Rejected { prefix: base.clone(), kind: "fails-at-run".to_string(), fail: String::new(), trailing: "900500 println".to_string(), limit, pad: 0 }
     } else {
         let pos = if rng.chance(1, 8) { ntok } else { rng.below(ntok + 1) };
         let (prefix, trailing) = base_cut(&base, pos);
@@ -779,7 +788,9 @@ fn generate0(rng: &mut Rng, tier: Tier) -> Case {
             1 => format!("{} 900500 println", trailing),
             _ => trailing,
         };
-        Rejected { prefix, kind: kind.to_string(), fail: fail.to_string(), trailing, limit: limit_for(kind) }
+        // rarely: the rejected source is more than a megabyte long
+        let pad = if rng.chance(1, 1500) { (1usize << 20) + rng.below(4096) } else { 0 };
+        Rejected { prefix, kind: kind.to_string(), fail: fail.to_string(), trailing, limit: limit_for(kind), pad }
     };
     let enumerate = tier == Tier::Thorough && !runtime_mode && rng.chance(1, 2);
     if enumerate && late_pair {
@@ -878,6 +889,11 @@ impl Engine for Reject {
             c.probes.remove(i);
             out.push(c);
         }
+        if case.rejected.pad > 0 {
+            let mut c = case.clone();
+            c.rejected.pad = 0;
+            out.push(c);
+        }
         if !case.rejected.trailing.is_empty() {
             let mut c = case.clone();
             c.rejected.trailing.clear();
@@ -951,7 +967,8 @@ impl Engine for Reject {
                 "fail" => c.rejected.fail.clone(),
                 "trailing" => c.rejected.trailing.clone(),
                 "limit_kind" => c.rejected.limit.as_ref().map(|l| l.0.clone()),
-                "limit_value" => c.rejected.limit.as_ref().map(|l| l.1)
+                "limit_value" => c.rejected.limit.as_ref().map(|l| l.1),
+                "pad" => c.rejected.pad
             },
             "base" => c.base.clone(),
             "enumerate" => c.enumerate,
@@ -981,7 +998,7 @@ impl Engine for Reject {
             input: hex_decode(&j.f_str("input")?)?,
             recording: j.f_bool("recording")?,
             history: json_strs(j, "history")?,
-            rejected: Rejected { prefix: r.f_str("prefix")?, kind: r.f_str("kind")?, fail: r.f_str("fail")?, trailing: r.f_str("trailing")?, limit },
+            rejected: Rejected { prefix: r.f_str("prefix")?, kind: r.f_str("kind")?, fail: r.f_str("fail")?, trailing: r.f_str("trailing")?, limit, pad: r.get("pad").and_then(|x| x.int()).unwrap_or(0) as usize },
             base: j.f_str("base")?,
             enumerate: j.f_bool("enumerate")?,
             style_r: style(&j.f_str("style_r")?)?,
